@@ -9,7 +9,7 @@
    Parametric in the facts regenerated from the source (Gen/Logging.v): the censor tuple,
    the PASS prefix and censor index of Client.login, the PASS reply texts.  No proofs here. *)
 From Coq Require Import ZArith List Bool.
-From Verif Require Import Lib.Sx Lib.PyStr Lib.PyStr4 Model.Framing.
+From Verif Require Import Lib.Sx Lib.PyStr Lib.PyStr4 Lib.LogFacts Model.Framing.
 Import ListNotations.
 Open Scope Z_scope.
 
@@ -202,46 +202,90 @@ Definition server_stream_log (censor : list text) (stream : text) : list logrec 
 (* ------------------------------------------------------------------ client: login *)
 Definition code_of_reply (line : text) : text := firstn 3 (rstrip (line ++ eol)).
 
-(* the `while code.matches("33x")` loop of Client.login; `replies` are the (single-line) replies
-   the server sends, in order; the loop ends when they run out (connection lost) or a
-   StatusCodeError is raised (no record is logged for either) *)
-Fixpoint client_login_loop (fuel : nat) (prefix : text) (k : Z) (password account : text)
-         (code : text) (replies : list text) : list logrec :=
+(* parse_line's record for a line as read from the wire (EOL included) *)
+Definition wire_reply_log (l : text) : logrec := {| lr_msg := rstrip l; lr_args := [] |}.
+
+(* BaseClient.parse_response on the lines still to come (EOL included; Model/Framing.v): the records
+   parse_line logs for every line it consumes (multi-line replies "230-..." / free continuation
+   lines / a continuation with a different code, which raises StatusCodeError after being logged)
+   and, when a whole reply was read, its code and the lines left.  None: StatusCodeError or the
+   connection ended (ConnectionResetError); nothing else is logged for either. *)
+Definition response_records (ls : list text) : list logrec * option (text * list text) :=
+  match parse_response ls with
+  | POk code _ rest => (map wire_reply_log (firstn (length ls - length rest) ls), Some (code, rest))
+  | PStatusErr _ _ _ rest => (map wire_reply_log (firstn (length ls - length rest) ls), None)
+  | PReset => (map wire_reply_log ls, None)
+  end.
+
+Definition login_arg_text (a : login_arg) (user password account : text) : text :=
+  match a with ArgUser => user | ArgPassword => password | ArgAccount => account end.
+
+Definition branch_command (b : login_branch) (user password account : text) : text :=
+  lb_prefix b ++ login_arg_text (lb_arg b) user password account.
+
+Fixpoint find_branch (bs : list login_branch) (code : text) : option login_branch :=
+  match bs with
+  | [] => None
+  | b :: r => if text_eqb code (lb_code b) then Some b else find_branch r code
+  end.
+
+(* self.command(cmd, expected, censor_after=c) followed by `continue_` on the code when it is one
+   of the expected ones (otherwise check_codes raises) *)
+Definition command_then (expected : list text) (cmd : text) (c : Z) (lines : list text)
+           (continue_ : text -> list text -> list logrec) : list logrec :=
+  client_command_records cmd c
+    ++ (let '(recs, o) := response_records lines in
+        recs ++ match o with
+                | Some (code, rest) => if any_matches expected code then continue_ code rest else []
+                | None => []
+                end).
+
+(* the `while code.matches(mask)` loop of Client.login, with `censor_after` as the loop-carried
+   variable it is in Python: `censor` is its value on entry to the iteration, the optional reset at
+   the top of the body and the optional binding in the selected branch update it, and the value
+   reached is what self.command receives.  `lines` are the reply lines the server still sends (any
+   script: the loop ends when they run out, on StatusCodeError, or when the code leaves the mask) *)
+Fixpoint client_login_loop (fuel : nat) (P : login_prog) (user password account : text)
+         (censor : Z) (code : text) (lines : list text) : list logrec :=
   match fuel with
   | O => []
   | S f =>
-      if matches T33x code then
-        let cmd := if text_eqb code T331 then Some (login_pass_command prefix password, k)
-                   else if text_eqb code T332 then Some (CMD_ACCT_ ++ account, 0)
-                   else None in
-        match cmd with
-        | None => []
-        | Some (c, k') =>
-            client_command_records c k'
-              ++ match replies with
-                 | [] => []
-                 | r :: rs =>
-                     client_reply_log r
-                       :: (if any_matches [T230; T33x] (code_of_reply r)
-                           then client_login_loop f prefix k password account (code_of_reply r) rs
-                           else [])
-                 end
+      if matches (lp_loop_mask P) code then
+        let c0 := match lp_reset P with Some v => v | None => censor end in
+        match find_branch (lp_branches P) code with
+        | None => []                                   (* else: raise StatusCodeError *)
+        | Some b =>
+            let c1 := match lb_censor b with Some v => v | None => c0 end in
+            command_then (lp_expected P) (branch_command b user password account) c1 lines
+              (client_login_loop f P user password account c1)
         end
       else []
   end.
 
-(* records of logger aioftp.client during Client.login(user, password, account) *)
+(* records of logger aioftp.client during Client.login(user, password, account) run as program P
+   against a server that sends `lines` (each with its EOL) *)
+Definition client_login_run (P : login_prog) (user password account : text) (lines : list text)
+  : list logrec :=
+  command_then (lp_expected P) (branch_command (lp_first P) user password account) 0 lines
+    (client_login_loop (S (length lines)) P user password account
+                       (match lp_init_censor P with Some v => v | None => 0 end)).
+
+(* today's shape of login(), for any PASS prefix / censor index:
+   USER ; while 33x: censor_after = None; 331 -> prefix + password, censor_after = k; 332 -> ACCT *)
+Definition std_login_prog (prefix : text) (k : Z) : login_prog := {|
+  lp_first := {| lb_code := []; lb_prefix := CMD_USER_; lb_arg := ArgUser; lb_censor := None |};
+  lp_expected := [T230; T33x];
+  lp_loop_mask := T33x;
+  lp_init_censor := None;
+  lp_reset := Some 0;
+  lp_branches := [ {| lb_code := T331; lb_prefix := prefix; lb_arg := ArgPassword; lb_censor := Some k |};
+                   {| lb_code := T332; lb_prefix := CMD_ACCT_; lb_arg := ArgAccount; lb_censor := None |} ]
+|}.
+
+(* `replies`: reply lines without their EOL *)
 Definition client_login_records (prefix : text) (k : Z) (user password account : text)
            (replies : list text) : list logrec :=
-  client_command_records (CMD_USER_ ++ user) 0
-    ++ match replies with
-       | [] => []
-       | r :: rs =>
-           client_reply_log r
-             :: (if any_matches [T230; T33x] (code_of_reply r)
-                 then client_login_loop (S (length rs)) prefix k password account (code_of_reply r) rs
-                 else [])
-       end.
+  client_login_run (std_login_prog prefix k) user password account (map (fun l => l ++ eol) replies).
 
 (* a whole login against the modelled server: (server records, client records).  The client
    connects (reads the greeting), sends USER, and PASS when the answer is 331. *)
@@ -274,6 +318,21 @@ Definition opt_text_of_sx (s : sx) : option text :=
 Definition user_of_sx (s : sx) : user := (opt_text_of_sx (nth_sx 0 s), opt_text_of_sx (nth_sx 1 s)).
 Definition users_of_sx (s : sx) : list user := map user_of_sx (list_of_sx s).
 
+(* option Z: () -> None, (k) -> Some k *)
+Definition opt_z_of_sx (s : sx) : option Z :=
+  match list_of_sx s with [] => None | x :: _ => Some (z_of_sx x) end.
+Definition arg_of_sx (s : sx) : login_arg :=
+  let z := z_of_sx s in if z =? 1 then ArgPassword else if z =? 2 then ArgAccount else ArgUser.
+(* branch: (code prefix arg censor) *)
+Definition branch_of_sx (s : sx) : login_branch :=
+  {| lb_code := text_of_sx (nth_sx 0 s); lb_prefix := text_of_sx (nth_sx 1 s);
+     lb_arg := arg_of_sx (nth_sx 2 s); lb_censor := opt_z_of_sx (nth_sx 3 s) |}.
+(* program: (first expected mask init reset branches) *)
+Definition prog_of_sx (s : sx) : login_prog :=
+  {| lp_first := branch_of_sx (nth_sx 0 s); lp_expected := texts_of_sx (nth_sx 1 s);
+     lp_loop_mask := text_of_sx (nth_sx 2 s); lp_init_censor := opt_z_of_sx (nth_sx 3 s);
+     lp_reset := opt_z_of_sx (nth_sx 4 s); lp_branches := map branch_of_sx (list_of_sx (nth_sx 5 s)) |}.
+
 Definition run_logcensor (fn : Z) (a : sx) : sx :=
   match fn with
   | 0 => (* parse_command record: censor line *)
@@ -300,5 +359,9 @@ Definition run_logcensor (fn : Z) (a : sx) : sx :=
       L [sx_of_logrecs s; sx_of_logrecs c]
   | 5 => (* stream-level parse_command log: censor stream *)
       sx_of_logrecs (server_stream_log (texts_of_sx (nth_sx 0 a)) (text_of_sx (nth_sx 1 a)))
+  | 6 => (* client login as a program: prog user password account lines(with EOL) *)
+      sx_of_logrecs (client_login_run (prog_of_sx (nth_sx 0 a)) (text_of_sx (nth_sx 1 a))
+                                      (text_of_sx (nth_sx 2 a)) (text_of_sx (nth_sx 3 a))
+                                      (texts_of_sx (nth_sx 4 a)))
   | _ => sx_err 99
   end.
